@@ -1,7 +1,7 @@
 (* Correspondence for C06: a cluster history (client commands at nodes, deliveries of emitted
    deltas, crashes and restarts of nodes) and, per node, the final replicated_keys and what clients read for each key. *)
 From stdpp Require Import gmap.
-From Coq Require Import NArith String.
+From Coq Require Export NArith ZArith String.
 From RV Require Export Lib.Hex Model.Crdt Model.ShardState Model.Cluster Corr.Common Corr.C07.
 
 Definition XSet (k v : string) (nx xx : bool) : ccmd := CSet (unhex k) (unhex v) nx xx.
@@ -12,6 +12,10 @@ Definition XHSet (k : string) (fs : list (string * string)) : ccmd :=
 Definition XHDel (k : string) (fs : list string) : ccmd := CHDel (unhex k) (map unhex fs).
 Definition CC (i : N) (c : ccmd) : rcev := RStep (CClient (N.to_nat i) c).
 Definition CD (i : N) (k : string) (d : rvalue) : rcev := RStep (CDeliver (N.to_nat i) (unhex k) d).
+Definition XIncrBy (k : string) (d : Z) : ccmd2 := CIncrBy (unhex k) d.
+Definition XGetSet (k v : string) : ccmd2 := CGetSet (unhex k) (unhex v).
+Definition XHIncrBy (k f : string) (d : Z) : ccmd2 := CHIncrBy (unhex k) (unhex f) d.
+Definition CX (i : N) (c : ccmd2) : rcev := RClient2 (N.to_nat i) c.
 (* node i crashes and restarts from the deltas it emitted itself *)
 Definition CR (i : N) : rcev := RRestart (N.to_nat i).
 
